@@ -22,7 +22,7 @@
   (Model/Join.lean) is tied to the code by the correspondence run of
   go/internal/c04.
 -/
-import ClairModel.Proofs.JoinTables
+import ClairModel.Proofs.JoinAll
 
 namespace ClairModel.Props.C04
 open ClairModel ClairModel.Join ClairModel.Gen
@@ -258,6 +258,112 @@ theorem other_release_not_reported :
   have := not_reported_cross e.1 hm e.2 ht hx a b ha hb hne r v (by simp [hr, hs]) hv opt ir vul
   rcases this with h | h | h <;> rw [h] <;> simp
 
+/-! ## every release of the distributions whose releases are discovered at run time
+
+  The tables above cover the releases that have a fixture image.  The
+  statements below are about ALL releases, at the level of the parsed
+  os-release keys (the text level, `osrelease.Parse`, is tied by the
+  correspondence run). -/
+
+/-- Debian, any release: an os-release with `ID=debian`, a codename and a
+    numeric `VERSION_ID` makes the scanner report exactly the Distribution
+    `mkDist(codename, number)` the updater records for that release. -/
+theorem debian_all_releases (m : KV) (n : Bytes) (v : Int)
+    (hid : get m kID = [100, 101, 98, 105, 97, 110]) (hn : lookup m kVERSION_CODENAME = some n) (hne : n ≠ [])
+    (hv : get m kVERSION_ID = itoa v) (hr : ClairModel.Bytes.inInt32 v) :
+    debianFromKV m = .dist (debianUpdDist n v) := by
+  have h1 : n.isEmpty = false := by cases n <;> simp_all
+  have h2 : (itoa v).isEmpty = false := by
+    have := itoa_ne_nil v
+    cases h : itoa v <;> simp_all
+  simp [debianFromKV, hid, hn, hv, h1, h2, parseInt32_itoa v hr, debianUpdDist]
+
+/-- Debian, any two releases: an image of release (n, v) joins the advisories
+    of release (n', v') only if they are the same release; and if they are, it
+    does, with the matcher's `Vulnerable` as the verdict. -/
+theorem debian_join_iff_same_release (n n' : Bytes) (v v' : Int) :
+    distAgree JoinMatchers.debian (debianUpdDist n v) (debianUpdDist n' v') = true ↔ (n = n' ∧ v = v') := by
+  rw [distAgree_iff JoinMatchers.debian [.did, .name, .version] debian_query_typed]
+  constructor
+  · intro h
+    exact debian_version_inj n n' v v' (h .version (by simp))
+  · rintro ⟨rfl, rfl⟩ f _
+    rfl
+
+theorem debian_all_releases_reported (n : Bytes) (v : Int) (r : Rec) (adv : Vuln)
+    (hr : r.dist = some (debianUpdDist n v)) (hv : adv.dist = debianUpdDist n v) (hn : nameJoins r adv = true)
+    (opt inRange vulnerable : Bool) :
+    reported JoinMatchers.debian opt inRange vulnerable r adv = .reported vulnerable := by
+  have hm := distro_matchers_shape.2.1
+  have hfil : JoinMatchers.debian.filter.eval { dist := some (debianUpdDist n v) } = some true := by
+    have d1 : decodeRec [68, 105, 115, 116, 114, 105, 98, 117, 116, 105, 111, 110, 46, 68, 73, 68] = some (.dist .did) := by decide
+    simp [JoinMatchers.debian, FExpr.eval, recField, d1, RField.get, DField.get, debianUpdDist,
+      JoinReleases.debian.mkDist, DistT.eval, SExpr.eval]
+  exact reported_of_agree _ hm _ _ hfil ((debian_join_iff_same_release n n v v).2 ⟨rfl, rfl⟩) r adv hr hv hn opt inRange vulnerable
+
+theorem debian_other_release_not_reported (n n' : Bytes) (v v' : Int) (hne : ¬ (n = n' ∧ v = v'))
+    (r : Rec) (adv : Vuln) (hr : r.dist = some (debianUpdDist n v)) (hv : adv.dist = debianUpdDist n' v')
+    (opt inRange vulnerable : Bool) :
+    reported JoinMatchers.debian opt inRange vulnerable r adv ≠ .reported true := by
+  have hm := distro_matchers_shape.2.1
+  have hag : distAgree JoinMatchers.debian (debianUpdDist n v) (debianUpdDist n' v') = false := by
+    cases h : distAgree JoinMatchers.debian (debianUpdDist n v) (debianUpdDist n' v') with
+    | false => rfl
+    | true => exact absurd ((debian_join_iff_same_release n n' v v').1 h) hne
+  exact not_reported_of_disagree _ hm _ _ hag r adv hr hv opt inRange vulnerable
+
+/-- Alpine, any stable release maj.min: an os-release whose keys are those of
+    an Alpine image of that release (`ID=alpine`, `NAME="Alpine Linux"`,
+    `PRETTY_NAME="Alpine Linux v<maj>.<min>"`, a dotted `VERSION_ID`) makes the
+    scanner report a Distribution that agrees with
+    `stableRelease{maj,min}.Distribution()` on every field the matcher
+    constrains (DID, Name, PrettyName) — although the scanner fills `Version`
+    and the updater `VersionID`. -/
+theorem alpine_all_releases (m : KV) (maj min : Nat) (x : Bytes)
+    (hid : get m kID = JoinReleases.alpine.distID) (hname : get m kNAME = JoinReleases.alpine.distName)
+    (hp : get m kPRETTY_NAME = (alpineStableDist maj min).prettyName)
+    (hv : beforeLastDot (get m kVERSION_ID) = some x) :
+    ∃ d, alpineFromKV m = .dist d ∧ distAgree JoinMatchers.alpine d (alpineStableDist maj min) = true := by
+  refine ⟨_, by simp [alpineFromKV, hid, hv]; rfl, ?_⟩
+  rw [distAgree_iff JoinMatchers.alpine [.did, .name, .prettyName] alpine_query_typed]
+  intro f hf
+  simp only [List.mem_cons, List.mem_nil_iff, or_false] at hf
+  rcases hf with rfl | rfl | rfl
+  · show JoinReleases.alpine.distID = (alpineStableDist maj min).did
+    simp [alpineStableDist, JoinReleases.alpine.stableDist, DistT.eval, SExpr.eval, JoinReleases.alpine.distID]
+  · show get m kNAME = (alpineStableDist maj min).name
+    rw [hname]
+    simp [alpineStableDist, JoinReleases.alpine.stableDist, DistT.eval, SExpr.eval, JoinReleases.alpine.distName]
+  · show get m kPRETTY_NAME = (alpineStableDist maj min).prettyName
+    exact hp
+
+/-- Alpine, any two stable releases: advisories of maj'.min' are joined by an
+    image of maj.min only if the releases are equal. -/
+theorem alpine_join_iff_same_release (a b a' b' : Nat) :
+    distAgree JoinMatchers.alpine (alpineStableDist a b) (alpineStableDist a' b') = true ↔ (a = a' ∧ b = b') := by
+  rw [distAgree_iff JoinMatchers.alpine [.did, .name, .prettyName] alpine_query_typed]
+  constructor
+  · intro h
+    exact alpine_pretty_inj a b a' b' (h .prettyName (by simp))
+  · rintro ⟨rfl, rfl⟩ f _
+    rfl
+
+/-- Ubuntu, any two releases whose version strings contain no space: the
+    Version field `"<ver> (<Name>)"` joins only equal versions. -/
+theorem ubuntu_join_same_version_partial (ver ver' name name' : Bytes)
+    (hs : ∀ c ∈ ver, c ≠ 32) (hs' : ∀ c ∈ ver', c ≠ 32)
+    (h : distAgree JoinMatchers.ubuntu (ubuntuUpdDist ver name) (ubuntuUpdDist ver' name') = true) :
+    ver = ver' ∧ title name = title name' := by
+  rw [distAgree_iff JoinMatchers.ubuntu [.did, .name, .version] ubuntu_query_typed] at h
+  have hv := h .version (by simp)
+  simp only [DField.get] at hv
+  rw [ubuntu_version, ubuntu_version] at hv
+  have := append_sep_inj 32 _ _ _ _ hs hs' hv
+  refine ⟨this.1, ?_⟩
+  have h2 := this.2
+  simp only [List.cons.injEq, true_and] at h2
+  exact List.append_cancel_right h2
+
 /-! ## language ecosystems (OSV) -/
 
 def matcherOf (dir : Bytes) : Option MatcherT := JoinMatchers.all.find? (fun m => m.pkg == dir)
@@ -439,6 +545,44 @@ theorem default_matchers_cover :
     `npm-not-in-defaults`). -/
 theorem default_matchers_cover_npm_counterexample :
     dflt [110, 111, 100, 101, 106, 115] = false := by
+  decide +kernel
+
+/-! ## the hypotheses are satisfiable -/
+
+def isDist : ScanOut → Bool
+  | .dist _ => true
+  | _ => false
+
+/-- The tables are not empty and contain what one expects: Alpine 3.18,
+    Debian 12, Ubuntu 22.04 each have a row whose scanner result is a
+    Distribution. -/
+example : (alpineRows.any fun row => row.rel == [51, 46, 49, 56] && isDist row.scan) = true ∧
+    (debianRows.any fun row => row.rel == [49, 50] && isDist row.scan) = true ∧
+    (ubuntuRows.any fun row => row.rel == [50, 50, 46, 48, 52] && isDist row.scan) = true := by
+  decide +kernel
+
+def exBookworm : Bytes := [98, 111, 111, 107, 119, 111, 114, 109]
+def exKV : KV := [(kID, [100, 101, 98, 105, 97, 110]), (kVERSION_CODENAME, exBookworm), (kVERSION_ID, [49, 50])]
+
+/-- `debian_all_releases` applies to the keys of a Debian 12 os-release. -/
+example : get exKV kID = [100, 101, 98, 105, 97, 110] ∧ lookup exKV kVERSION_CODENAME = some exBookworm ∧
+    get exKV kVERSION_ID = itoa 12 ∧ debianFromKV exKV = .dist (debianUpdDist exBookworm 12) := by
+  decide +kernel
+
+def exRec : Rec :=
+  { pkg := { name := [108, 105, 98, 115, 115, 108, 51], kind := [98, 105, 110, 97, 114, 121],
+             src := some ([111, 112, 101, 110, 115, 115, 108], [115, 111, 117, 114, 99, 101]) },
+    dist := some (debianUpdDist exBookworm 12) }
+
+def exVuln : Vuln :=
+  { pkgName := [111, 112, 101, 110, 115, 115, 108], pkgKind := [115, 111, 117, 114, 99, 101],
+    dist := debianUpdDist exBookworm 12 }
+
+/-- A complete instance of `scan_reports_vulnerable`: Debian 12, package
+    `libssl3` built from `openssl`, advisory naming the source package. -/
+example : nameJoins exRec exVuln = true ∧
+    reported JoinMatchers.debian false false true exRec exVuln = .reported true ∧
+    reported JoinMatchers.debian false false false exRec exVuln = .reported false := by
   decide +kernel
 
 end ClairModel.Props.C04
